@@ -53,3 +53,126 @@ pub fn encode_via_bytes(ty: &Ty, v: &Val) -> (Result<Vec<u8>, ErrInfo>, Val) {
     let as_written = l.to_val();
     (desert::serialize_to_bytes(&l).map(|b| b.to_vec()).map_err(|e| errinfo(&e)), as_written)
 }
+
+// ------------------------------------------------------------------------------------------------
+// sinks (C15)
+
+/// user-defined output: records the byte stream; `bytewise` forwards `write_bytes` as single-byte writes
+pub struct Recording {
+    pub bytes: Vec<u8>,
+    pub calls: usize,
+    pub bytewise: bool,
+}
+impl desert::BinaryOutput for Recording {
+    fn write_u8(&mut self, value: u8) {
+        self.calls += 1;
+        self.bytes.push(value);
+    }
+    fn write_bytes(&mut self, bytes: &[u8]) {
+        if self.bytewise {
+            for b in bytes {
+                self.write_u8(*b);
+            }
+        } else {
+            self.calls += 1;
+            self.bytes.extend_from_slice(bytes);
+        }
+    }
+}
+
+pub struct SinkReport {
+    pub as_written: Val,
+    /// (sink name, bytes or error)
+    pub outputs: Vec<(&'static str, Result<Vec<u8>, ErrInfo>)>,
+    pub size: Result<usize, ErrInfo>,
+}
+
+/// the *same instance* is serialized to every sink
+pub fn encode_all_sinks(ty: &Ty, v: &Val) -> SinkReport {
+    live::reset_tls();
+    let l = Live::from_val(ty, v);
+    let as_written = l.to_val();
+    let e = |r: desert::Result<Vec<u8>>| r.map_err(|e| errinfo(&e));
+    let mut outputs = Vec::new();
+    outputs.push(("serialize(Vec<u8>)", e(desert::serialize(&l, Vec::new()))));
+    outputs.push(("serialize(BytesMut)", e(desert::serialize(&l, bytes::BytesMut::new()).map(|b| b.to_vec()))));
+    outputs.push(("serialize_to_bytes", e(desert::serialize_to_bytes(&l).map(|b| b.to_vec()))));
+    outputs.push(("serialize_to_byte_vec", e(desert::serialize_to_byte_vec(&l))));
+    outputs.push(("serialize(Recording)", e(desert::serialize(&l, Recording { bytes: vec![], calls: 0, bytewise: false }).map(|r| r.bytes))));
+    outputs.push(("serialize(Recording bytewise)", e(desert::serialize(&l, Recording { bytes: vec![], calls: 0, bytewise: true }).map(|r| r.bytes))));
+    let size = desert::serialize(&l, desert::SizeCalculator::new()).map(|s| s.size()).map_err(|e| errinfo(&e));
+    SinkReport { as_written, outputs, size }
+}
+
+// ------------------------------------------------------------------------------------------------
+// C07: what is left unread
+
+fn drain(ctx: &mut desert::DeserializationContext<'_>) -> Vec<u8> {
+    use desert::BinaryInput;
+    let mut rest = Vec::new();
+    while let Ok(b) = ctx.read_u8() {
+        rest.push(b);
+    }
+    rest
+}
+
+/// decodes one value from the front of `bytes` through a caller-owned context and returns what is still readable
+pub fn decode_with_rest(ty: &Ty, bytes: &[u8]) -> (Result<Val, ErrInfo>, Vec<u8>) {
+    live::reset_tls();
+    let mut ctx = desert::DeserializationContext::new(bytes);
+    let r = live::decode_in(ty, &mut ctx).map(|l| l.to_val()).map_err(|e| errinfo(&e));
+    let rest = drain(&mut ctx);
+    (r, rest)
+}
+
+/// several values written back to back into one SerializationContext
+pub fn encode_many(items: &[(Ty, Val)]) -> Result<Vec<u8>, ErrInfo> {
+    use desert::BinarySerializer;
+    live::reset_tls();
+    let mut ctx = desert::SerializationContext::new(Vec::new());
+    for (ty, v) in items {
+        Live::from_val(ty, v).serialize(&mut ctx).map_err(|e| errinfo(&e))?;
+    }
+    Ok(ctx.into_output())
+}
+
+pub fn decode_many(tys: &[Ty], bytes: &[u8]) -> (Vec<Result<Val, ErrInfo>>, Vec<u8>) {
+    live::reset_tls();
+    let mut ctx = desert::DeserializationContext::new(bytes);
+    let mut out = Vec::new();
+    for ty in tys {
+        let r = live::decode_in(ty, &mut ctx).map(|l| l.to_val()).map_err(|e| errinfo(&e));
+        let failed = r.is_err();
+        out.push(r);
+        if failed {
+            break;
+        }
+    }
+    let rest = drain(&mut ctx);
+    (out, rest)
+}
+
+// ------------------------------------------------------------------------------------------------
+// C12: the writer's own unknown-length form
+
+/// `serialize_iterator` over an iterator whose size hint is inexact
+pub fn encode_iter_unknown(elem: &Ty, xs: &[Val]) -> Result<Vec<u8>, ErrInfo> {
+    live::reset_tls();
+    let items: Vec<Live> = xs.iter().map(|x| Live::from_val(elem, x)).collect();
+    let mut ctx = desert::SerializationContext::new(Vec::new());
+    let mut it = Inexact(items.iter());
+    desert::serialize_iterator(&mut it, &mut ctx).map_err(|e| errinfo(&e))?;
+    Ok(ctx.into_output())
+}
+
+/// iterator adaptor that admits it does not know its length
+struct Inexact<I>(I);
+impl<I: Iterator> Iterator for Inexact<I> {
+    type Item = I::Item;
+    fn next(&mut self) -> Option<I::Item> {
+        self.0.next()
+    }
+    fn size_hint(&self) -> (usize, Option<usize>) {
+        (0, None)
+    }
+}
